@@ -170,6 +170,22 @@ def derive_inputs(scn, paths, rng, n_random=4, n_dict=6):
             for a in list(scn["accounts"]) + [inp["caller"]]:
                 inp["balances"][a] = rng.choice([0, 0, 1, 999, 1000, 1001, 10 ** 18])
         inputs.append(inp)
+    # who pays: exactly one account is rich, everybody else has nothing, and the arguments are small non-zero amounts --
+    # the inputs that tell apart the account whose balance decides an insufficient-funds fork from the one that is debited
+    payers = list(scn["accounts"])[:4]
+    if scn.get("pay_inputs", True) and any(s_[0] == "s" for s_ in scn["calldata"]):
+        for a in payers:
+            w = rng.choice([1, 1000] + [x for x in words if 0 < x < (1 << 64)][:4])
+            # (the caller is never the executing contract itself: a symbolic address equal to the test contract is the
+            #  recorded finding C02-alias-excludes-test-contract, exercised by harness/bptie.py)
+            inp = {"caller": rng.choice([b for b in payers if b != scn["this"]] + [ADDR_POOL[0]]), "origin": ADDR_POOL[0], "value": 0, "args": {}, "balances": {}}
+            for seg in scn["calldata"]:
+                if seg[0] == "s":
+                    inp["args"][seg[1]] = w % (1 << (8 * seg[2]))
+            for b in payers + [inp["caller"]]:
+                inp["balances"][b] = 0
+            inp["balances"][a] = 10 ** 18
+            inputs.append(inp)
     if scn.get("symbolic_storage"):
         # the initial storage is an input as well: scalar slots and mapping entries under the keys the other inputs use
         vals = [0, 0, 1, 5, 7, 255, (1 << 255), (1 << 256) - 1] + [w for w in words if w < (1 << 16)][:6]
